@@ -8,9 +8,21 @@ import "go/types"
 
 const hasMonotonic = uint64(1) << 63
 
+// concrete clock (check option clock_mode=concrete): time starts at a fixed instant and
+// advances 1 ms per reading plus whatever symapi.AdvanceClock adds.
+func (m *Machine) concreteNowNs() uint64 {
+	n, _ := m.side["clock.concrete"].(uint64)
+	n += 1_000_000
+	m.side["clock.concrete"] = n
+	return n
+}
+
 func (m *Machine) clockRead() *Term {
 	if m.out == nil { // package initialisation
 		return m.tb.Const(64, 1)
+	}
+	if m.P.ConcreteClock {
+		return m.tb.Const(64, m.concreteNowNs())
 	}
 	v := m.newEnvVar("clock", BV(64))
 	m.envVars = append(m.envVars, v)
@@ -47,6 +59,9 @@ func registerTimeIntrinsics(P *Program) {
 		var sec *Term
 		if m.out == nil {
 			sec = m.tb.Const(64, 4_400_000_000)
+		} else if m.P.ConcreteClock {
+			n, _ := m.side["clock.concrete"].(uint64)
+			sec = m.tb.Const(64, 4_400_000_000+n/1_000_000_000)
 		} else {
 			sec = m.newEnvVar("wallsec", BV(64))
 			m.envVars = append(m.envVars, sec)
